@@ -54,7 +54,10 @@ type caseDesc struct {
 	Cfg     deploy.Config `json:"config"`
 	Addrs   []addr        `json:"addrs"`
 	Clock   int           `json:"clock"` // expiry relative to now in seconds
-	NoChain bool          `json:"nochain,omitempty"` // the registered voucher carries no device certificate chain (OVDevCertChain = null)
+	// Between: what happens to the registration between HelloRV and ProveToRV of the session under
+	// test: "" nothing, "expire" it runs out, "reregister" the owner registers a different blob
+	Between string `json:"between,omitempty"`
+	NoChain bool   `json:"nochain,omitempty"` // the registered voucher carries no device certificate chain (OVDevCertChain = null)
 	Attack  rvAttack      `json:"attack"`
 	Transit transit       `json:"transit"`
 }
@@ -184,7 +187,7 @@ func evalCase(d caseDesc) ev.Result {
 	if err != nil {
 		return ev.Failf("setup", "%v", err)
 	}
-	tag := fmt.Sprintf("%s/%s addrs=%d clock=%+d nochain=%v attack=%+v transit=%+v", d.Cfg.Key, d.Cfg.Enc, len(d.Addrs), d.Clock, d.NoChain, d.Attack, d.Transit)
+	tag := fmt.Sprintf("%s/%s addrs=%d clock=%+d nochain=%v between=%q attack=%+v transit=%+v", d.Cfg.Key, d.Cfg.Enc, len(d.Addrs), d.Clock, d.NoChain, d.Between, d.Attack, d.Transit)
 	guid := w.dev.Cred.GUID
 	w.rv.Mem.SetRVBlobExpiry(guid, time.Now().Add(time.Duration(d.Clock)*time.Second))
 	expired := d.Clock < 0
@@ -393,6 +396,19 @@ func evalCase(d caseDesc) ev.Result {
 			return ev.Failf("nonce-not-fresh", "%s: the rendezvous server issued the same TO1 nonce %x in two sessions", tag, nonce)
 		}
 	}
+	switch d.Between {
+	case "expire":
+		w.rv.Mem.SetRVBlobExpiry(guid, time.Now().Add(-10*time.Second))
+		expired = true
+	case "reregister":
+		dns := "moved.owner.test"
+		if _, err := deploy.RegisterTO0(ctx, w.owner, deploy.NewLink(w.rv), guid, []protocol.RvTO2Addr{{DNSAddress: &dns, Port: 4443, TransportProtocol: protocol.HTTPSTransport}}, 3600); err != nil {
+			return ev.Failf("setup", "%s: re-registration between HelloRV and ProveToRV: %v", tag, err)
+		}
+		if d.Clock < 0 {
+			expired = false // the new registration is live
+		}
+	}
 	t := tok{signer: w.dev.Key, pss: d.Cfg.PSS(), nonce: refcbor.B(nonce), ueid: refcbor.B(append([]byte{1}, guid[:]...))}
 	var body, orig []byte
 	switch a.Kind {
@@ -507,6 +523,9 @@ func evalCase(d caseDesc) ev.Result {
 	if d.NoChain {
 		cls += "/no-device-chain"
 	}
+	if d.Between != "" {
+		cls += "/then-" + d.Between
+	}
 	if released {
 		cls = "released/" + cls
 	} else {
@@ -566,6 +585,10 @@ func genCase(t *rapid.T) caseDesc {
 	if (kind == "signer" || (kind == "none" && d.Transit.Kind == "skip")) && rapid.IntRange(0, 2).Draw(t, "nochain") == 0 {
 		d.NoChain = true
 	}
+	// the registration changes between the two messages of the session (manual requester only)
+	if !(kind == "none" && d.Transit.Kind != "skip") && kind != "no-hello" && kind != "unregistered" && !d.NoChain && d.Clock > 0 && rapid.IntRange(0, 2).Draw(t, "between") == 0 {
+		d.Between = rapid.SampledFrom([]string{"expire", "expire", "reregister"}).Draw(t, "bkind")
+	}
 	return d
 }
 
@@ -596,7 +619,7 @@ func TestC07(t *testing.T) {
 		}
 		return res
 	})
-	r.SetRule("attacks", "configuration × registered blob content (0..4 addresses with IPv4/IPv6/DNS/null combinations, ports, transports) × clock position × either (a) a manual requester: HelloRV/ProveToRV with one structure-aware mutation, a foreign signer (stranger, owner, another registered device, key of another kind), a token replayed from another session, the device's key with a UEID naming another registered GUID, HelloRV for another GUID, omitted / stale / mistyped claims, no HelloRV, unregistered GUID, a registration whose voucher carries no device certificate chain (then nobody is the proven device); or (b) the real device function with TO1.RVRedirect altered in transit (mutation, re-signed by stranger/manufacturer/device with the address replaced, envelope damage: signature of 0/1/odd/short length, alg header removed / unregistered / other family, null payload) and the result fed to TO2. Oracle: type 33 only if the reference accepts the token for this session and the registration is unexpired; the released blob equals the bytes registered for the GUID the token names; an altered or foreign-signed blob makes TO2 fail. Non-trivial: any attack, expired position or transit alteration; distinct by descriptor.")
+	r.SetRule("attacks", "configuration × registered blob content (0..4 addresses with IPv4/IPv6/DNS/null combinations, ports, transports) × clock position × either (a) a manual requester: HelloRV/ProveToRV with one structure-aware mutation, a foreign signer (stranger, owner, another registered device, key of another kind), a token replayed from another session, the device's key with a UEID naming another registered GUID, HelloRV for another GUID, omitted / stale / mistyped claims, no HelloRV, unregistered GUID, a registration whose voucher carries no device certificate chain (then nobody is the proven device), a registration that runs out or is replaced by a different blob between HelloRV and ProveToRV; or (b) the real device function with TO1.RVRedirect altered in transit (mutation, re-signed by stranger/manufacturer/device with the address replaced, envelope damage: signature of 0/1/odd/short length, alg header removed / unregistered / other family, null payload) and the result fed to TO2. Oracle: type 33 only if the reference accepts the token for this session and the registration is unexpired; the released blob equals the bytes registered for the GUID the token names; an altered or foreign-signed blob makes TO2 fail. Non-trivial: any attack, expired position or transit alteration; distinct by descriptor.")
 	ev.Rapid(r, "attacks", ev.N{Quick: 5000, Thorough: 150000}, genCase, evalCase)
 	r.SetRule("granted-ttl", "exhaustive over 14 configurations: the rendezvous policy (AcceptVoucher) grants 1 s although the owner asked for 3600 s; TO1 immediately succeeds, TO1 after 2.2 s of real time must fail (expiry follows the granted, not the requested, lifetime)")
 	ev.Enum(r, "granted-ttl", true, func(yield func(caseDesc) bool) {
